@@ -146,6 +146,19 @@ Section Scaling.
     mkHSParams (kp * hp_p0 P) (hp_sigma_b P) (kr * hp_kf P) (kr * hp_ka P) (kr * hp_ks P)
                (kT * hp_minT P) (kT * hp_maxT P) (kT * hp_dTy P) (kT * hp_dThz P).
 
+  (** the Held-Suarez parameters non-dimensionalised with a scale (what
+      [HeldSuarezForcing.__init__] computes with [physics_specs.nondimensionalize]) *)
+  Definition nondim_hs (s : scale) (P : HSParams F) : HSParams F :=
+    mkHSParams (nondim s d_pressure (hp_p0 P)) (hp_sigma_b P) (nondim s d_rate (hp_kf P)) (nondim s d_rate (hp_ka P))
+               (nondim s d_rate (hp_ks P)) (nondim s d_temp (hp_minT P)) (nondim s d_temp (hp_maxT P))
+               (nondim s d_temp (hp_dTy P)) (nondim s d_temp (hp_dThz P)).
+  (** the complete equilibrium temperature from the surface pressure: [pw] is
+      x |-> x ** kappa and [lg] is log (any functions: they only see p/p0) *)
+  Definition hs_teq_of_ps (pw lg : F -> F) (P : HSParams F) (sigma ps cl sl : F) : F :=
+    hs_teq P (pw (hs_p_over_p0 P sigma ps)) (lg (hs_p_over_p0 P sigma ps)) cl sl.
+  Definition scale_pos (s : scale) : bool :=
+    negb (fleb (sL s) 0) && negb (fleb (sT s) 0) && negb (fleb (sM s) 0) && negb (fleb (sK s) 0).
+
   (** *** the implicit column model (Model/Implicit.v) as a state space for the
       integrators of Model/Integrators.v: one spectral coefficient (m,l), state
       = (divergence[K], temperature[K], lnps).  Entries beyond the K layers
